@@ -28,6 +28,10 @@ CLAIMED = {
    text="Coq theorems for every well-formed p-box on the configured grid (length and strict monotonicity of the grid proved for the constants translated from params.py): alpha_cut(a) is the focal interval at the first grid level of minimal distance to a, a grid level is its own nearest level, alpha-cuts are monotone in the level, cdf and alpha-cut are inverse within one grid step (the cut at the reported probability is a bound value nearest to x), native discretisation returns the focal intervals, every outer interval contains all alpha-cuts of its band, widest PI contains narrowest and is monotone in coverage; narrowest monotone where it exists (PARTIAL: fallback breaks it - known finding O24). Tie: bit-exact in-Coq run of 7 query kinds on p-boxes of every kind + independent nearest-level oracle.",
    note="Partial: condensation-contains-original is oracle-only; narrowest-PI monotonicity proved only without the fallback (O24 open), cdf raising on flat runs is O25 (open). Trusted: kernel, Reals axioms, hand model validated by the differential run, translate_params.py, linspace model.",
    technique="Coq proofs about first-argmin lookup on a strictly increasing grid + in-Coq differential run + independent oracle", ref="5/C18"),
+ "C08": dict(
+   text="Coq theorems (any number of focal elements, any masses >= 0 whose total reaches the level): the value returned by get_ecdf + extend_ecdf + 'next' interpolation at a level is an endpoint whose cumulated mass reaches the level while no smaller value's does (generalised inverse of Pl / Bel); by uniqueness it is independent of the order of listing and unchanged by splitting a focal element; monotone in the level; lower-endpoint bound <= upper-endpoint bound; stacking = Staircase constructor over these values on the grid; with n equal masses level a_t returns step t whenever t/n < a_t <= (t+1)/n, and the grid translated from params.py satisfies that at all 200 steps (round trip). Tie: bit-exact in-Coq run of stacking()/DempsterShafer.to_pbox()/stochastic_mixture() + exact-rational generalised-inverse oracle at all grid levels, permuted and split re-runs, round trips.",
+   note="Trusted: kernel, Reals axioms, hand model validated by the differential run (interp1d 'next' as q[#{p_j<a}] clipped, cumsum as left fold, argsort as stable sort - value ties with inexact masses are excluded from generated cases because numpy's argsort is not stable), translate_params.py. At a level hit within rounding by a cumulated mass either neighbouring value is accepted.",
+   technique="Coq proof (sorted prefix sums = order-free cumulated mass; uniqueness of the generalised inverse) + in-Coq differential run + exact oracle", ref="5/C08"),
 }
 NA_REASON = "no check registered yet in this revision of the framework (work in progress, see DESIGN.md section 9)"
 base = json.load(open("/root/.vp/BASELINE.json"))
